@@ -1,6 +1,6 @@
 (* Extraction of the C08 models for the correspondence check. ExtrOcamlBasic only. *)
 From V.lib Require Import Base.
-From V.c08 Require Import C08Model.
+From V.c08 Require Import C08Model C08Spec.
 Require Import ExtrOcamlBasic.
 Separate Extraction
   rsk rf mdat boxhdr
@@ -8,4 +8,5 @@ Separate Extraction
   mdat_size header_size payload_abs_offset mdat_encode
   decode_header decode_box_mdat
   read_data copy_data
-  chunk stbl mstate chunk_seg copy_sample_data.
+  chunk stbl mstate chunk_seg copy_sample_data
+  box_in_file valid_range header_at chunks_cover chunks_in_payload expected_samples.
